@@ -55,6 +55,10 @@ func (h *RolloutCreateUpdateHandler) validateV1alpha1RolloutUpdate(oldObj, newOb
 		if !strings.EqualFold(oldObj.Annotations[appsv1alpha1.RolloutStyleAnnotation], newObj.Annotations[appsv1alpha1.RolloutStyleAnnotation]) {
 			return field.ErrorList{field.Forbidden(field.NewPath("Metadata.Annotation"), "Rollout 'Rolling-Style' annotation is immutable")}
 		}
+		// forbid adding or removing steps during rollout, as the v1beta1 path does: the controller indexes the steps with the persisted step index
+		if len(oldObj.Spec.Strategy.Canary.Steps) != len(newObj.Spec.Strategy.Canary.Steps) {
+			return field.ErrorList{field.Forbidden(field.NewPath("Spec.Strategy.Canary"), "Amount of Rollout steps are immutable")}
+		}
 	}
 
 	/*if newObj.Status.CanaryStatus != nil && newObj.Status.CanaryStatus.CurrentStepState == appsv1alpha1.CanaryStepStateReady {
